@@ -61,8 +61,65 @@ def run(ctx):
     ctx.guard('E-iii', 'address_offsets', check_address_offsets, ctx, w)
     ctx.guard('E-iii', 'section_in_segment', check_sis, ctx, w)
     ctx.floor('E-iii', 4)
+    ctx.rule('J-KEY', 'bytes returned by data() that come out of a container shared between sections are keyed by what identifies the section')
+    ctx.guard('J-KEY', 'Section.data', check_data_keys, ctx, w)
+    ctx.floor('J-KEY', 3)
     ctx.guard('G-LIT', 'literals', literals.glit, ctx, w, [SEC, SEG],
               only={SEC: ('Section.', 'StringTableSection.', 'NullSection.')})
+
+
+UNIQUE_KEY_PARTS = ('sh_offset',)      # with `self` / id(self): what no two sections of one file share (names, types, sizes are shared)
+
+
+def check_data_keys(ctx, w):
+    """Every returning path of Section.data(): the returned expression, with locals replaced by what the path assigned, is
+    searched for element reads (x[k], x.get(k), x.pop(k), x.setdefault(k, ..)) from a container that outlives this section object's
+    own state -- reached through self.elffile, a module global or a class attribute.  Such a read is a cache shared by all sections
+    of the file: its key must contain the section's file offset or the section object itself.  Section names are not unique
+    (COMDAT .debug_macro / .group / .text.* sections), neither are types or sizes."""
+    import copy
+    f = w.model.func(SEC, 'Section.data')
+    local_names = set(x.id for x in ast.walk(f.node) if isinstance(x, ast.Name) and isinstance(x.ctx, ast.Store)) | set(a.arg for a in f.node.args.args)
+
+    def root(e):
+        chain = []
+        while isinstance(e, ast.Attribute):
+            chain.append(e.attr)
+            e = e.value
+        return (e.id if isinstance(e, ast.Name) else None), list(reversed(chain))
+
+    def shared(container):
+        r, chain = root(container)
+        if r == 'self':
+            return bool(chain) and chain[0] in ('elffile', '__class__') and len(chain) >= 2
+        if r in ('Section', 'type') or (r is not None and r not in local_names and r not in ('self',)):
+            return bool(chain) or isinstance(container, ast.Name)
+        return False
+
+    n = 0
+    for conds, r, pth in paths.returns_with_conds(f.node):
+        n += 1
+        if r is None:
+            continue
+        e = expr._StoreSubst(expr.path_store(pth)).visit(copy.deepcopy(r))
+        for x in ast.walk(e):
+            cont = key = None
+            if isinstance(x, ast.Subscript) and not isinstance(x.slice, ast.Slice):
+                cont, key = x.value, x.slice
+            elif isinstance(x, ast.Call) and isinstance(x.func, ast.Attribute) and x.func.attr in ('get', 'pop', 'setdefault') and x.args:
+                cont, key = x.func.value, x.args[0]
+            if cont is None or not shared(cont):
+                continue
+            ktxt = U(key)
+            ok = any(isinstance(k, ast.Constant) and k.value in UNIQUE_KEY_PARTS for k in ast.walk(key)) or \
+                any(isinstance(k, ast.Attribute) and k.attr in UNIQUE_KEY_PARTS for k in ast.walk(key)) or \
+                any(isinstance(k, ast.Name) and k.id == 'self' and not any(isinstance(a, ast.Attribute) and a.value is k for a in ast.walk(key)) and
+                    not any(isinstance(a, ast.Subscript) and a.value is k for a in ast.walk(key)) for k in ast.walk(key))
+            ctx.ob('J-KEY', f.construct, 'shared container %s read with key %s' % (U(cont)[:60], ktxt[:60]), ok, line=getattr(r, 'lineno', None), got=ktxt,
+                   msg='data() returns an element of a container shared by all sections of the file under a key two sections can share: '
+                       'the second one gets the first one\'s bytes')
+    for _ in range(n):
+        ctx.ob('J-KEY', f.construct, 'returning path examined', True)
 
 
 def check_section_init(ctx, w):
